@@ -83,4 +83,46 @@ theorem adjLists_spec (p : Params α) (j : Nat) :
     · simp only [ho, if_false, false_and]
       exact adjLists_spec p j l ps sg h1 h2
 
+/-! ### the `_ps` tags: `generate` overwrites the tag of every parent (cma.py:412-413) -/
+
+theorem setTags_length (s : State α) (tags : List (Bool × Nat)) :
+    (setTags s tags).parents.length = s.parents.length := by
+  simp [setTags]
+
+theorem retag_parents_length (s : State α) : (retag s).parents.length = s.parents.length := by
+  simp [retag]
+
+theorem retag_getElem (s : State α) (k : Nat) (hk : k < s.parents.length) :
+    (retag s).parents[k]'(by rw [retag_parents_length]; exact hk) = { s.parents[k] with off := false, pidx := k } := by
+  simp [retag]
+
+/-- `generate` overwrites every tag: whatever tags the parents carried, the re-tagged state is the
+same. -/
+theorem retag_setTags (s : State α) (tags : List (Bool × Nat)) : retag (setTags s tags) = retag s := by
+  have hp : (retag (setTags s tags)).parents = (retag s).parents := by
+    apply List.ext_getElem
+    · simp [retag, setTags]
+    · intro i h1 h2
+      have hi : i < s.parents.length := by simpa [retag] using h2
+      simp only [retag, setTags, List.getElem_map, List.getElem_zipIdx, Nat.zero_add]
+      cases tags[i]? <;> rfl
+  show ({ (setTags s tags) with parents := (retag (setTags s tags)).parents } : State α) = _
+  rw [hp]; rfl
+
+theorem retag_getD_x (s : State α) (j : Nat) :
+    ((retag s).parents.getD j ⟨0, [], [], false, 0⟩).x = (s.parents.getD j ⟨0, [], [], false, 0⟩).x := by
+  by_cases hj : j < s.parents.length
+  · have h2 : j < (retag s).parents.length := by rw [retag_parents_length]; exact hj
+    rw [List.getD_eq_getElem?_getD, List.getD_eq_getElem?_getD, List.getElem?_eq_getElem h2,
+      List.getElem?_eq_getElem hj, retag_getElem s j hj]
+    rfl
+  · have h2 : ¬ j < (retag s).parents.length := by rw [retag_parents_length]; exact hj
+    simp [List.getD_eq_getElem?_getD, List.getElem?_eq_none (Nat.le_of_not_gt hj),
+      List.getElem?_eq_none (Nat.le_of_not_gt h2)]
+
+/-- The values an entering offspring receives do not read any parent tag. -/
+theorem offspringTmp_retag (s : State α) (ind : MInd α) : offspringTmp (retag s) ind = offspringTmp s ind := by
+  simp only [offspringTmp, retag_getD_x]
+  rfl
+
 end C14Align
